@@ -191,7 +191,7 @@ int main()
                 os << " | " << hex(calc(particle.energy()));
             }
         }
-        else if (cmd == "togeo")
+        else if (cmd == "togeo" || cmd == "msc")
         {
             Table mscxs = read_table(is);
             Table range_t = read_table(is);
@@ -216,6 +216,18 @@ int main()
             {
                 auto r = to_geo(t);
                 os << ' ' << hex(r.step) << ' ' << hex(r.alpha);
+                if (cmd == "msc")
+                {
+                    // convert back geometry-limited fractions of the geometric path
+                    MscStep step;
+                    step.true_path = t;
+                    step.geom_path = r.step;
+                    step.alpha = r.alpha;
+                    detail::MscStepFromGeo from_geo(msc_ref.params, step, range, lambda);
+                    double const gs[] = {r.step, std::nextafter(r.step, 0.0), r.step * 0.5, r.step * 1e-3};
+                    for (double g : gs)
+                        os << ' ' << hex(from_geo(g));
+                }
             }
             os << " | " << hex(helper.msc_mfp());
         }
